@@ -246,9 +246,14 @@ def nls_models():
     return [('cos-affine-in-t', f1, g1, 2, 2), ('poly', f2, g2, 2, 1), ('trig-mixed', f3, g3, 2, 2), ('cubic', f4, g4, 2, 2)]
 
 
-def case_nls(H, mname, f, g, n, mdim, history, tref):
-    """history: list of ('call',) / ('reset', k) ; tref: None (use systime) or int or 'tensor0'"""
-    name = 'C15/NLS/%s/history=%s/tref=%s' % (mname, history, tref)
+def case_nls(H, mname, f, g, n, mdim, history, tref, post=0):
+    """history: list of ('call',) / ('reset', k) ; tref: None (use systime) or int or 'tensor0';
+    post: number of further calls of the system AFTER set_refpoint and before A..D, c1, c2 are read (the reference point was set, it must stay)"""
+    name = 'C15/NLS/%s/history=%s/tref=%s' % (mname, history, tref) + ('/calls-after-set_refpoint=%d' % post if post else '')
+
+    def run_post(sys_):
+        for _ in range(post):
+            sys_(torch.full((n,), 0.3, dtype=DT), torch.full((mdim,), -0.2, dtype=DT))
 
     class Sys(pp.module.NLS):
         def state_transition(self, state, input, t=None):
@@ -287,6 +292,7 @@ def case_nls(H, mname, f, g, n, mdim, history, tref):
         u = torch.tensor([0.2, 0.5][:mdim], dtype=DT)
         xs, us = m.symbolic(x, 'x'), m.symbolic(u, 'u')
         sys_.set_refpoint(state=x, input=u, t=targ)
+        run_post(sys_)
         A, B, C, D = sys_.A, sys_.B, sys_.C, sys_.D
         c1, c2 = sys_.c1, sys_.c2
         again.clear()
@@ -307,6 +313,7 @@ def case_nls(H, mname, f, g, n, mdim, history, tref):
         x = tensor_from_env(['x%d' % i for i in range(n)], model)
         u = tensor_from_env(['u%d' % i for i in range(mdim)], model)
         sys_.set_refpoint(state=x, input=u, t=targ)
+        run_post(sys_)
         tt = torch.tensor(tstar)
         Ar = torch.autograd.functional.jacobian(lambda z: f(z, u, tt), x)
         Br = torch.autograd.functional.jacobian(lambda z: f(x, z, tt), u)
@@ -321,7 +328,7 @@ def case_nls(H, mname, f, g, n, mdim, history, tref):
                 (sys_.D - Dr).abs().max().item(),
                 (sys_.A @ x + sys_.B @ u + sys_.c1 - f(x, u, tt)).abs().max().item(),
                 (sys_.C @ x + sys_.D @ u + sys_.c2 - g(x, u, tt)).abs().max().item())
-        return e > 1e-8, 'linearisation at (x*,u*,t*=%s) after history %s deviates by %.3g' % (tstar, history, e)
+        return e > 1e-8, 'linearisation at (x*,u*,t*=%s) after history %s%s deviates by %.3g' % (tstar, history, ' and %d call(s) after set_refpoint' % post if post else '', e)
 
     for ctx, (mats, fv, gv, xs, us, m, tens) in run_paths(H, name, prog):
         selftest(H, ctx, m, list(zip(mats, tens)), name)
@@ -395,7 +402,7 @@ def case_custom_forward(H):
 def run(H):
     H.assumptions += ['exact real arithmetic', 'time indices of LTV matrices enumerated (concrete), values symbolic']
     H.bounds += ['LTI: n<=2, m<=2, p<=2, batch in {none, 2}, all 4 presence patterns of c1/c2',
-                 'LTV: period T<=3, start time 0..T (two consecutive calls)', 'NLS: 4 model programs x call histories of length <=3 x reference times; c1/c2/A read repeatedly after one set_refpoint', 'a subclass overriding forward() invoked through __call__ (3 calls)']
+                 'LTV: period T<=3, start time 0..T (two consecutive calls)', 'NLS: 4 model programs x call histories of length <=3 x reference times; c1/c2/A read repeatedly after one set_refpoint; further calls of the system between set_refpoint and the read', 'a subclass overriding forward() invoked through __call__ (3 calls)']
     for (n, mdim, p) in ([(2, 1, 2)] if H.quick else [(2, 1, 2), (1, 1, 1), (2, 2, 1)]):
         for batch, mb in ((0, False), (2, False), (2, True)):
             for c1, c2 in itertools.product((False, True), repeat=2):
@@ -435,4 +442,11 @@ def run(H):
                 except Exception as e:
                     import traceback; traceback.print_exc()
                     H.engine_error('nls/' + mname, e)
+    for mname, f, g, n, mdim in nls_models()[:(2 if H.quick else 4)]:
+        for history, tref, post in (([('call',)], None, 1), ([], 2, 2)) + (() if H.quick else (([('reset', 3)], None, 2), ([('call',)], 'tensor0', 1))):
+            try:
+                case_nls(H, mname, f, g, n, mdim, history, tref, post=post)
+            except Exception as e:
+                import traceback; traceback.print_exc()
+                H.engine_error('nls-post/' + mname, e)
     return H.finish(explanation=EXPLAIN)
